@@ -11,5 +11,14 @@ table = "| seeded change | breaks | site | needs to manifest | caught by |\n|---
 p = os.path.join(ROOT, "DESIGN.md")
 s = open(p).read()
 s = re.sub(r"<!-- SEEDED-TABLE -->.*<!-- /SEEDED-TABLE -->", "<!-- SEEDED-TABLE -->\n" + table + "\n<!-- /SEEDED-TABLE -->", s, flags=re.S)
+# property-preserving changes (harmless/*): which checks stay quiet
+hrows = []
+for m in sorted(glob.glob(os.path.join(ROOT, "harmless", "*", "meta.json"))):
+    d = json.load(open(m))
+    verdicts = ", ".join(f"{k}: {'quiet' if v.split(' ')[0] == 'silent' else 'ALARM (' + v + ')'}" for k, v in sorted(d.get("checks", {}).items()))
+    what = d["what"].lstrip("# ").replace("|", "/")
+    hrows.append(f"| {os.path.basename(os.path.dirname(m))} | {d['property']} | {what} | {verdicts} | {d.get('comment', '')} |")
+htable = "| harmless change | property | what changes | checks | comment |\n|---|---|---|---|---|\n" + "\n".join(hrows) if hrows else "(none recorded yet)"
+s = re.sub(r"<!-- HARMLESS-TABLE -->.*<!-- /HARMLESS-TABLE -->", "<!-- HARMLESS-TABLE -->\n" + htable + "\n<!-- /HARMLESS-TABLE -->", s, flags=re.S)
 open(p, "w").write(s)
-print(len(rows), "rows")
+print(len(rows), "rows;", len(hrows), "harmless rows")
